@@ -22,6 +22,12 @@ class C14(Machine):
         # a share of the histories starts by turning a node into a skip node and querying it:
         # expanded-but-skipped nodes can still receive new successors (SCC attachment)
         sc["params"]["skip_first"] = rng.random() < 0.15
+        # another share: expand the root, query every stub (one kind of query only, so that e.g.
+        # candidates are cached without seeds), then turn the stubs into skip nodes in one of
+        # the three ways
+        if not sc["params"]["skip_first"] and rng.random() < 0.12:
+            sc["params"]["stub_then_skip"] = {"kind": rng.choice(["candidates", "candidates", "seeds", "sets"]), "how": rng.choice(["minimal_skip", "minimal_skip", "skip_remaining", "skip_each"])}
+            sc["params"]["len"] = max(sc["params"]["len"], 8)
         if rng.random() < 0.4:
             sc["walk_seed"] = rng.randrange(1 << 30)
         if rng.random() < 0.2:
@@ -41,6 +47,29 @@ class C14(Machine):
             if step == 1:
                 return attr_op(world, rng, nid=0)
             return {"op": "scc", "maa": rng.random() < 0.5}
+        sts = p.get("stub_then_skip")
+        if sts and not st.get("sts_done"):
+            if step == 0:
+                return {"op": "expand_one", "node": world.space_of(0)}
+            stubs = world.stubs()
+            todo = [n for n in stubs if n not in st.setdefault("sts_q", set())][:4]
+            if todo and step <= 4:
+                st["sts_q"].add(todo[0])
+                sp = world.space_of(todo[0])
+                if sts["kind"] == "candidates":
+                    return {"op": "candidates", "node": sp, "compute": True, "greedy": rng.random() < 0.6, "sim": rng.random() < 0.6}
+                return {"op": sts["kind"], "node": sp, "compute": True} if sts["kind"] == "sets" else {"op": "seeds", "node": sp, "compute": True, "fallback": False}
+            if sts["how"] == "skip_each" and stubs and step <= 7:
+                done = st.setdefault("sts_s", set())
+                rest = [n for n in stubs if n not in done]
+                if rest:
+                    done.add(rest[0])
+                    return {"op": "skip_to_minimal", "node": world.space_of(rest[0])}
+            st["sts_done"] = True
+            if sts["how"] == "minimal_skip":
+                return {"op": "minimal", "node": None, "size": None, "skip": True}
+            if sts["how"] == "skip_remaining":
+                return {"op": "skip_remaining"}
         r = rng.random()
         if r < p["p_attr"]:
             # bias toward unexpanded nodes: that is where staleness is born
@@ -54,6 +83,11 @@ class C14(Machine):
         r -= p["p_cache"]
         if r < p["p_pickle"]:
             return {"op": "pickle"}
+        if rng.random() < 0.12:
+            # the third way a stub becomes a skip node (besides skip_to_minimal / skip_remaining)
+            from ..machine import rand_limit
+
+            return {"op": "minimal", "node": None, "size": rand_limit(rng, world, 0.6), "skip": True}
         return structural_op(world, rng)
 
     def check_node(self, world, nid, step, site):
@@ -77,7 +111,7 @@ class C14(Machine):
         if not v and "candidates" in data:
             cands = [[list(p) for p in s] for s in data["candidates"]]
             seen["candidates"] = D.digest(cands)
-            v += check_candidates(world, self.ID, nid, cands, step, site, exempt=skip_exempt(world, nid) if skipped else None, outside_successors=bool(d["expanded"]) and not skipped)
+            v += check_candidates(world, self.ID, nid, cands, step, site, exempt=skip_exempt(world, nid) if skipped else None, outside_successors=bool(d["expanded"]))
         return v, seen
 
     def check_step(self, world, st, op, out, step):
